@@ -35,6 +35,8 @@ def judge_mismatches(rep, name, mism, table, compat, classify):
 
 
 def default_classify(rep, rec, e, table, compat):
+    if "inp" not in rec:
+        rec = dict(rec, inp=[rec["raw"]])
     rep.violation("decoder(%r) [table=%s compat=%s] -> %s %r; specification: %s %r; clause: %s" % (
         "".join(rec["inp"]), tabname(table), compat, rec["kind"], rec["out"], e.get("spec_kind"),
         e.get("spec_out"), e.get("clause", e.get("clauses"))),
@@ -311,8 +313,9 @@ def trace_validate(rep, name, recs, table, compat=False, classify=default_classi
         rep.states += r.distinct
         rep.transitions += r.generated
     rep.traces += len(recs)
-    rep.configs.append({"config": "trace_" + name, "calls": len(recs), "symbols": sum(len(r["inp"]) for r in recs),
-                        "max_symbols": max([len(r["inp"]) for r in recs] or [0]),
+    sz = [len(r["inp"]) if "inp" in r else len(r["raw"]) for r in recs]
+    rep.configs.append({"config": "trace_" + name, "calls": len(recs), "symbols": sum(sz),
+                        "max_symbols": max(sz or [0]),
                         "machine_steps": sum(r.generated for r in results)})
     bad = {}
     for e in events:
@@ -489,6 +492,260 @@ def check_C16(tier):
     try:
         import checks_enc
         checks_enc.index_encoder_side(rep, quick)
+    except ImportError:
+        rep.notes["encoder_side"] = "not built yet"
+    rep.exhaustive = True
+    return rep.finish()
+
+
+# --------------------------------------------------------------------------
+# C07 - any string over the semantically robust alphabet is a valid molecule
+# --------------------------------------------------------------------------
+
+KEYPOOL = ["?", "C", "N+1", "Fe+10", "O-1", "H", "Cl-2", "S", "C+0", "C-01", "Xx", "C+", "+1", "c", "C+1-1", "N1"]
+
+
+def check_C07(tier):
+    rep = Report("C07", tier)
+    quick = tier == "quick"
+    rep.notes["rule"] = ("TLC enumerates every table over subsets of a key pool (valid and malformed keys, capacities "
+                         "incl. negative, 0 and > 8), decides acceptance and the robust alphabet; each is replayed into "
+                         "set_semantic_constraints / get_semantic_robust_alphabet (acceptance and set equality); strings "
+                         "over the alphabet are enumerated / traced through the decoder machine; non-trivial = accepted "
+                         "table with at least one atom key")
+    sf = de.selfies_mod()
+    r, vectors = de.run_table_space(KEYPOOL if not quick else KEYPOOL[:12], [-1, 0, 1, 3, 9], 3 if not quick else 2)
+    rep.add_tlc(r, "TableSpace")
+    if r.violated:
+        rep.violation("specification-level: %s" % r.violated, {"errors": r.errors[:2]})
+    nvalid = 0
+    try:
+        for v in vectors:
+            t = v["table"]
+            rep.case(tuple(sorted(t.items())), nontrivial=v["valid"] and len(t) > 1)
+            try:
+                sf.set_semantic_constraints(dict(t))
+                acc = True
+            except ValueError:
+                acc = False
+            except Exception as e:
+                rep.violation("set_semantic_constraints(%r) raised %s" % (t, type(e).__name__), {"table": t})
+                continue
+            rep.traces += 1
+            if acc != v["valid"]:
+                rep.violation("table %r: library %s it, the specification %s it" % (
+                    t, "accepts" if acc else "rejects", "accepts" if v["valid"] else "rejects"), {"table": t})
+            elif acc:
+                nvalid += 1
+                got = sf.get_semantic_robust_alphabet()
+                want = set(v["alphabet"])
+                if set(got) != want:
+                    rep.violation("robust alphabet for %r: missing %s, extra %s" % (
+                        t, sorted(want - set(got))[:5], sorted(set(got) - want)[:5]), {"table": t})
+        for v in vectors[:: max(1, len(vectors) // 3)][:3]:
+            rep.sample({"table": v["table"], "accepted": v["valid"], "alphabet_size": len(v["alphabet"])})
+    finally:
+        sf.set_semantic_constraints("default")
+    rep.notes["tables_enumerated"] = len(vectors)
+    rep.notes["tables_accepted"] = nvalid
+    # strings over the alphabet: enumeration over sub-alphabets, with the C01 clauses and NeverInvalid
+    odd = {"?": 2, "Fe+10": 9, "O-1": 0, "C": 3, "N+1": 1, "Cl-2": 12}
+    n = 4 if quick else 5
+    for tname, tab in (("default", "default"), ("odd", odd), ("tight", TABLES["tight"])):
+        set_ok = True
+        sf.set_semantic_constraints(tab if isinstance(tab, str) else dict(tab))
+        alpha = sorted(sf.get_semantic_robust_alphabet())
+        sf.set_semantic_constraints("default")
+        atoms = [s for s in alpha if "Ring" not in s and "Branch" not in s]
+        rng = random.Random(seed() + len(alpha))
+        sub = sorted(set(rng.sample(atoms, min(8, len(atoms))) + ["[Branch1]", "[=Branch1]", "[Ring1]", "[=Ring1]", "[#Branch2]", "[Ring2]"]))
+        results, vecs = de.run_decoder_tlc("ra_%s" % tname, sub, tab, n, emit=True,
+                                           invariants=de.C01_INVARIANTS + ["NeverInvalid"], fastjit=quick)
+        add_results(rep, "robust_%s" % tname, results, alphabet=sub, max_symbols=n, vectors=len(vecs))
+        mism = de.replay_decoder_vectors(vecs, tab)
+        rep.traces += len(vecs)
+        judge_mismatches(rep, "ra_%s" % tname, mism, tab, False, default_classify)
+        # long random strings over the *returned* alphabet
+        inputs = [[rng.choice(alpha) for _ in range(rng.randint(1, 80 if quick else 300))] for _ in range(150 if quick else 1500)]
+        recs = de.record_decoder(inputs, tab)
+        for rec in recs:
+            if rec["kind"] != "ok":
+                rep.violation("string over the robust alphabet of table %s is rejected (%s): %r" % (
+                    tname, rec["kind"], "".join(rec["inp"])[:200]), {"tokens": rec["inp"], "table": tab})
+        trace_validate(rep, "C07_%s" % tname, recs, tab)
+    rep.exhaustive = True
+    return rep.finish()
+
+
+# --------------------------------------------------------------------------
+# C08 - the decoder is total and terminates
+# --------------------------------------------------------------------------
+
+FUZZ_CHARS = list("[]..CNOH=#@+-123/\\xBranchRingepsilo_ ") + ["é", "²", "٣", "½", " ", "€"]
+
+
+def check_C08(tier):
+    import time as _time
+    rep = Report("C08", tier)
+    quick = tier == "quick"
+    rep.notes["rule"] = ("design side: the text pipeline (lexer + machine) has exactly two terminal outcomes and every "
+                         "behaviour terminates (TLC liveness under weak fairness); code side: every enumerated / "
+                         "fuzzed text x {compatible, attribute} returns or raises DecoderError, within a time bound, "
+                         "and leaves the constraint table untouched; non-trivial = not well-formed or >= 2 symbols")
+    sf = de.selfies_mod()
+    chars = ["[", "]", ".", "C", "x"]
+    n = 6 if quick else 8
+    results, vectors = de.run_decoder_tlc("text", [], "default", 0, emit=True, emit_name="TextEmit", spec="TextSpec",
+                                          extends="DecodeText", raw=(chars, n), fastjit=quick,
+                                          invariants=["InvValence", "ScanIsSplit"])
+    add_results(rep, "text<=%d over %s" % (n, "".join(chars)), results, vectors=len(vectors))
+    # liveness on a smaller instance (weak fairness, no state constraint)
+    results, _ = de.run_decoder_tlc("live", [], "default", 0, spec="TextFair", extends="DecodeText",
+                                    raw=(chars, 4 if quick else 5), properties=["TextTerminates"], fastjit=quick)
+    add_results(rep, "liveness TextTerminates", results)
+    results, _ = de.run_decoder_tlc("live_sym", DEC["frag"][:8] + ["[Foo]"], "default", 3, spec="FairSpec",
+                                    properties=["Terminates"], fastjit=quick)
+    add_results(rep, "liveness Terminates (symbol level)", results)
+
+    def totality(raw, spec_kind=None, wf=False, budget=20.0):
+        before = sf.get_semantic_constraints()
+        for compat in (False, True):
+            for attr in (False, True):
+                t0 = _time.time()
+                kind, val = de.call_decoder(raw, compat, attr)
+                dt = _time.time() - t0
+                rep.traces += 1
+                if kind not in ("ok", "DecoderError"):
+                    yield "decoder(%r, compatible=%s, attribute=%s) raised %s" % (raw[:120], compat, attr, kind), kind
+                if dt > budget:
+                    yield "decoder took %.1fs on %d characters" % (dt, len(raw)), "timeout"
+        if sf.get_semantic_constraints() != before:
+            sf.set_semantic_constraints("default")
+            yield "decoder changed the constraint table", "state"
+
+    for v in vectors:
+        rep.case(v["raw"], nontrivial=(not v["wf"]) or len(v["toks"]) >= 2)
+        for msg, k in totality(v["raw"]):
+            rep.violation(msg, {"input": v["raw"]})
+    for v in vectors[:: max(1, len(vectors) // 3)][:3]:
+        rep.sample({"text": v["raw"], "spec_outcome": v["kind"]})
+    # symbol-level: symbols outside the grammar, legacy symbols, both flags
+    results, vecs = de.run_decoder_tlc("sym", DEC["bad"] + LEGACY[2:8], "default", 3 if quick else 4, emit=True, fastjit=quick)
+    add_results(rep, "symbols outside the grammar + legacy", results, vectors=len(vecs))
+    for v in vecs:
+        for msg, k in totality("".join(v["inp"])):
+            rep.violation(msg, {"input": "".join(v["inp"])})
+    # fuzz: TLC judges the ASCII part (precise where well-formed), the harness only the exception type elsewhere
+    rng = random.Random(seed() * 3 + 8)
+    fuzz = []
+    for _ in range(600 if quick else 6000):
+        L = rng.randint(0, 40)
+        fuzz.append("".join(rng.choice(FUZZ_CHARS) for _ in range(L)))
+    for _ in range(200 if quick else 2000):
+        t = gens.alive_selfies(rng, rng.randint(2, 40))
+        s = "".join(t)
+        for _ in range(rng.randint(1, 3)):
+            p = rng.randint(0, len(s))
+            s = s[:p] + rng.choice(FUZZ_CHARS) + s[p + rng.randint(0, 1):]
+        fuzz.append(s)
+    recs = []
+    for s in fuzz:
+        for msg, k in totality(s):
+            rep.violation(msg, {"input": s})
+        if all(ord(c) < 127 and c != '"' for c in s):
+            kind, val = de.call_decoder(s)
+            recs.append({"raw": s, "kind": kind, "out": val})
+    for r_ in recs:
+        rep.case(r_["raw"], nontrivial=True)
+    trace_validate(rep, "C08_fuzz", recs, "default")
+    # size: very long inputs, deep nesting, huge numbers
+    big = [("long chain", "[C]" * (20000 if quick else 100000)),
+           ("long alive", "".join(gens.alive_selfies(rng, 10000 if quick else 50000))),
+           ("nesting 300", "".join(gens.deep_branches(300))),
+           ("many dots", "[C]." * 5000),
+           ("brackets", "[" * 5000), ("closers", "]" * 5000 + "[C]"),
+           ("oversized index", "[C][Ring3][P][P][P]" * 300),
+           ("isotope 5000 digits", "[" + "1" * 5000 + "C]"),
+           ("charge 5000 digits", "[C+" + "1" * 5000 + "]"),
+           ("nesting 1200", "".join(gens.deep_branches(1200))),
+           ("nesting 6000", "".join(gens.deep_branches(6000)))]
+    for what, s in big:
+        for msg, k in totality(s, budget=60.0):
+            f = [x for x in rep.findings if x.get("signature") == "decoder:nesting-deeper-than-recursion-limit"]
+            if k == "RecursionError" and what.startswith("nesting") and f:
+                rep.known(f[0]["id"], f[0]["what"])
+            else:
+                rep.violation("%s: %s" % (what, msg), {"input_description": what, "length": len(s)})
+    rep.notes["big_inputs"] = [w for w, _ in big]
+    rep.exhaustive = True
+    rep.assumptions += ["termination of the code is observed with a time bound (20 s, 60 s for the giant inputs), not proved",
+                        "non-ASCII text is judged on the exception type only; TLC judges ASCII text"]
+    return rep.finish()
+
+
+# --------------------------------------------------------------------------
+# C14 - tokenisation utilities
+# --------------------------------------------------------------------------
+
+def check_C14(tier):
+    rep = Report("C14", tier)
+    quick = tier == "quick"
+    rep.notes["rule"] = ("all strings up to the bound over {[, ], ., x}: on well-formed ones Split/concat/len/alphabet "
+                         "are specified exactly (and MC-checked against the decoder's scanner), each is replayed into "
+                         "split_selfies, len_selfies, get_alphabet_from_selfies; elsewhere only totality; "
+                         "non-trivial = well-formed with >= 2 tokens")
+    sf = de.selfies_mod()
+    chars = ["[", "]", ".", "x"]
+    n = 8 if quick else 10
+    results, vectors = de.run_decoder_tlc("split", [], "default", 0, emit=True, emit_name="TextEmit", spec="TextSpec",
+                                          extends="DecodeText", raw=(chars, n), fastjit=quick,
+                                          invariants=["ScanIsSplit", "SplitConcat", "SplitCount"])
+    add_results(rep, "text<=%d over %s" % (n, "".join(chars)), results, vectors=len(vectors))
+    wf = [v for v in vectors if v["wf"]]
+    rep.notes["well_formed"] = len(wf)
+    for v in vectors:
+        raw = v["raw"]
+        rep.traces += 1
+        try:
+            got = list(sf.split_selfies(raw))
+            err = None
+        except ValueError:
+            got, err = None, "ValueError"
+        except Exception as e:
+            rep.violation("split_selfies(%r) raised %s" % (raw, type(e).__name__), {"input": raw})
+            continue
+        if v["wf"]:
+            rep.case(raw, nontrivial=len(v["toks"]) >= 2)
+            if got != v["toks"]:
+                rep.violation("split_selfies(%r) = %r, specification %r" % (raw, got, v["toks"]), {"input": raw})
+            elif "".join(got) != raw:
+                rep.violation("concatenation of split_selfies(%r) is not the input" % raw, {"input": raw})
+            if sf.len_selfies(raw) != len(v["toks"]):
+                rep.violation("len_selfies(%r) = %d, %d tokens" % (raw, sf.len_selfies(raw), len(v["toks"])), {"input": raw})
+    for v in wf[:: max(1, len(wf) // 3)][:3]:
+        rep.sample({"text": v["raw"], "tokens": v["toks"]})
+    # finite collections: alphabet = symbols occurring, without the dot
+    rng = random.Random(seed() + 14)
+    for _ in range(300 if quick else 3000):
+        coll = rng.sample(wf, rng.randint(0, 6))
+        want = set(t for v in coll for t in v["toks"]) - {"."}
+        got = sf.get_alphabet_from_selfies([v["raw"] for v in coll])
+        rep.traces += 1
+        if got != want:
+            rep.violation("get_alphabet_from_selfies(%r) = %r, expected %r" % ([v["raw"] for v in coll], got, want),
+                          {"collection": [v["raw"] for v in coll]})
+    # realistic symbols: tokens of long strings, the decoder consumes exactly these tokens
+    toks_inputs = [gens.alive_selfies(rng, rng.randint(1, 60)) for _ in range(200 if quick else 2000)]
+    for t in toks_inputs:
+        s = "".join(t)
+        rep.traces += 1
+        if list(sf.split_selfies(s)) != t or sf.len_selfies(s) != len(t):
+            rep.violation("split_selfies / len_selfies disagree with the symbols of %r" % s[:200], {"input": s})
+    recs = de.record_decoder(toks_inputs, "default")
+    trace_validate(rep, "C14_tokens", recs, "default")
+    try:
+        import checks_enc
+        checks_enc.encoder_outputs_well_formed(rep, quick)
     except ImportError:
         rep.notes["encoder_side"] = "not built yet"
     rep.exhaustive = True
